@@ -111,20 +111,8 @@ func (r *pkgRun) fail(prop, kind string, di int, op, expected, observed, model, 
 		if kind == "crash" && !strings.Contains(observed, "out_of_memory") && !strings.Contains(observed, "no_stderr") {
 			class += ":not-out-of-memory"
 		}
-		if kind == "timeout" && r.mdl != nil {
-			if t := strings.Fields(op); len(t) >= 3 {
-				mop := fmt.Sprintf("decs %s %s", t[1], t[len(t)-1])
-				if path == "slice" {
-					safe := "1"
-					if strings.HasPrefix(t[0], "must") {
-						safe = "0"
-					}
-					mop = fmt.Sprintf("dec %s %s %s", safe, t[1], t[len(t)-1])
-				}
-				if md, err := r.mdl.Do(mop); err == nil && md.Class != "fuel" {
-					class += ":not-a-runaway-count"
-				}
-			}
+		if kind == "timeout" && r.mdl != nil && !r.modelDeclines(op) {
+			class += ":not-a-runaway-count"
 		}
 	}
 	names := make([]string, len(r.sc.env.Defs))
@@ -156,6 +144,19 @@ func (r *pkgRun) real(line string) session.Resp {
 		r.dead = true
 		r.eng.note("driver of %s cannot be restarted: %v", r.pkg.ID, err)
 		return resp
+	}
+	if resp.Class == "timeout" && !r.modelDeclines(line) {
+		// the model gets through this input (or the operation decodes nothing), so a run-away count does not explain
+		// the silence: before calling it a hang, give the operation a fresh driver and much more time -- on a loaded
+		// machine an innocent operation can miss the short deadline
+		if slow, err2 := session.OpenDriver(r.pkg, r.sc.env, 5*r.eng.opTimeout); err2 == nil {
+			again, err3 := slow.Do(line)
+			slow.Close()
+			if err3 == nil && again.Class != "timeout" {
+				r.eng.note("driver of %s: `%s` missed the %v deadline once and answered in a fresh process", r.pkg.ID, session.Abbrev(line, 80), r.eng.opTimeout)
+				return again
+			}
+		}
 	}
 	if resp.Class == "crash" && (smallBlockOOM(resp.Raw) || strings.Contains(resp.Raw, "no_stderr")) {
 		// the driver is a long-lived process with a memory cap. When it dies for want of a SMALL block (this operation
@@ -1032,4 +1033,29 @@ func smallBlockOOM(raw string) bool {
 	}
 	n, err := strconv.ParseInt(m[1], 10, 64)
 	return err == nil && n < 32<<20
+}
+
+// modelDeclines: is the operation a decode of bytes that the model declines as a run-away count ("fuel": a loop over
+// more than 65536 elements that consume nothing)? False for operations that decode nothing and without a model.
+func (r *pkgRun) modelDeclines(op string) bool {
+	if r.mdl == nil {
+		return false
+	}
+	t := strings.Fields(op)
+	if len(t) < 3 {
+		return false
+	}
+	var mop string
+	switch t[0] {
+	case "unmarshal", "makefrombytes":
+		mop = fmt.Sprintf("dec 1 %s %s", t[1], t[len(t)-1])
+	case "mustunmarshal", "mustmakefrombytes":
+		mop = fmt.Sprintf("dec 0 %s %s", t[1], t[len(t)-1])
+	case "decode", "make":
+		mop = fmt.Sprintf("decs %s %s", t[1], t[len(t)-1])
+	default:
+		return false
+	}
+	md, err := r.mdl.Do(mop)
+	return err == nil && md.Class == "fuel"
 }
